@@ -1,20 +1,22 @@
+\* NEGATIVE CONTROL (not part of the check): once one local endpoint passed the receiver-specific MAC check, its sibling
+\* endpoints are released unchecked.  TLC must report Inv_NoMacForMeNoData violated.
 SPECIFICATION Spec
 CONSTANTS
-  Senders = {1, 3}
+  Senders = {1}
   Receivers = {2}
-  Levels = {"payload", "submsg", "msg"}
+  Levels = {"submsg"}
   Kinds = {"gmac", "gcm"}
   OAs = {TRUE, FALSE}
-  K256s = {TRUE, FALSE}
+  K256s = {TRUE}
   Dirs = {"w2r", "r2w"}
-  Others = {"same", "none", "diff"}
+  Others = {"same"}
   Astray = TRUE
-  Eps2 = {}
-  LooseList = FALSE
-  GenS = 0
+  Eps2 = {2}
+  LooseList = TRUE
+  GenS = 1
   LooseKid = FALSE
-  GenK = 4
-  GenC = 1
+  GenK = 0
+  GenC = 6
 VIEW View
 INVARIANT Inv_TamperedNeverDecodes
 INVARIANT Inv_NoKeyNoData
